@@ -159,6 +159,14 @@ def overcommitted_completed_by(draw):
     for j in range(1, n):
         tasks.append({"name": f"oc{j}", "clients": 1, "stride": 1, "mode": "iterations", "warmup_iterations": None,
                       "iterations": draw(st.integers(2, 5)), "requests": [req(draw(st.sampled_from([0.5, 1.0, 2.5])))]})
+    if n == 5 and draw(st.booleans()):
+        # "window" flavour: the completing client's worker is through at once (its own queued tasks are skipped), the other worker's
+        # first task ends between two of its wake-ups; together with a slow JoinPointReached (see race_case) the request to complete
+        # the element reaches that worker while it is idle but still has a task of the element queued
+        for j in (0, 2, 4):
+            tasks[j]["iterations"], tasks[j]["requests"] = 1, [req(1 / 8)]
+        tasks[1]["iterations"], service = draw(st.sampled_from([(5, 0.125), (41, 0.125), (6, 1.0), (12, 0.5), (5, 2.5), (3, 2.5), (7, 0.125), (9, 0.125)]))
+        tasks[1]["requests"] = [req(service)]
     out = [{"parallel": tasks, "clients": 2, "completed_by": draw(st.sampled_from(["oc0", "oc0", "any"]))}]
     for k in range(draw(st.integers(2, 3))):
         out.append(draw(leaf(f"after{k}", max_clients=2)))
@@ -209,10 +217,14 @@ def race_case(draw, min_elements=1, max_elements=4, errors=False, allow_complete
         schedule = draw(two_completed_by_elements(errors))
     elif allow_completed_by and draw(st.integers(0, 7)) == 0:
         schedule[draw(st.integers(0, n - 1))] = draw(ramped_element(99))
-    elif allow_completed_by and allow_overcommit and max_elements >= 3 and draw(st.integers(0, 11)) == 0:
+    elif allow_completed_by and allow_overcommit and max_elements >= 3 and draw(st.integers(0, 9)) == 0:
         schedule = draw(overcommitted_completed_by())
     n_hosts = draw(st.sampled_from([1, 1, 2, 2, 3][: 2 * max_hosts - 1]))
     hosts = [draw(st.integers(1, 4)) for _ in range(n_hosts)]
+    overrides = None
+    if schedule and schedule[0].get("parallel") and schedule[0]["parallel"][0]["name"] == "oc0":
+        hosts = [draw(st.sampled_from([2, 2, 4]))] * n_hosts  # (two workers for the element's two clients)
+        overrides = draw(st.sampled_from([None, {"JoinPointReached": 4}, {"JoinPointReached": 5}, {"JoinPointReached": 6}, {"JoinPointReached": 7}]))
     if template:
         hosts = [draw(st.sampled_from([3, 4]))] * n_hosts  # every client gets a worker of its own
     # all hosts are assumed to have the same number of cores (Rally uses the coordinator's core count for every host)
@@ -220,6 +232,7 @@ def race_case(draw, min_elements=1, max_elements=4, errors=False, allow_complete
     return {
         "schedule": schedule,
         "hosts": hosts,
+        **({"delay_overrides": overrides} if overrides else {}),
         "test_mode": draw(st.booleans()),
         "offsets": draw(st.lists(st.sampled_from([0.0, 1000.0, -500.5, 86400.25]), min_size=1, max_size=4)),
         "delays": draw(st.lists(st.integers(0, 7), min_size=1, max_size=12)),
